@@ -1,8 +1,16 @@
 #!/bin/sh
-# offline setup: build the replay crate (path deps on /repo) and warm the Kani dependency cache
+# offline setup: build the replay crate (path deps on /repo) and warm the Kani dependency cache for okane-core
 set -e
 cd /verif
 mkdir -p .cache evidence replays
 export CARGO_NET_OFFLINE=true
-(cd replay && cp -f /repo/Cargo.lock Cargo.lock.repo 2>/dev/null || true; CARGO_TARGET_DIR=/verif/.cache/replay-target cargo build --offline -q) || echo "replay crate build failed (checks will report no-failing-input-found)"
+(cd replay && CARGO_TARGET_DIR=/verif/.cache/replay-target cargo build --offline -q) || echo "replay crate build failed (checks will report no-failing-input-found)"
+# first cargo-kani build of the dependencies takes about a minute; do it once here
+python3 - <<'PY' || true
+import sys
+sys.path.insert(0, '/verif')
+from kx import kani
+r = kani.run_harnesses('/repo', ['get_column_complete'], 'quick')
+print('kani warm-up:', [(x['harness'], x['status']) for x in r])
+PY
 exit 0
